@@ -220,7 +220,17 @@ fn corpus() -> Vec<(&'static str, String, Vec<(usize, Vec<PS>)>, Vec<u8>)> {
 /// parametric grammars, expanded by reachability of (rule, parameter) pairs
 fn parametric(idx: usize) -> (String, Vec<(usize, Vec<PS>)>, Vec<u8>) {
     let t = |c: u8| PS::T(c, c);
-    match idx % 7 {
+    match idx % 8 {
+        7 => {
+            // a guarded single-rule symbol with exactly one user (an inlining candidate whose guard must survive): {aabc, aaabc}
+            let lark = "start: cnt::0\ncnt::_: \"a\" cnt::incr(_) %if lt(_, 3)\n | done::_\ndone::_: \"b\" \"c\" %if ge(_, 2)\n".to_string();
+            let mut rules = vec![(0, vec![PS::N(1)])];
+            for p in 0..=3usize {
+                if p < 3 { rules.push((1 + p, vec![t(b'a'), PS::N(2 + p)])); }
+                if p >= 2 { rules.push((1 + p, vec![PS::N(5 + p)])); rules.push((5 + p, vec![t(b'b'), t(b'c')])); }
+            }
+            (lark, rules, b"abc".to_vec())
+        }
         5 => {
             // conditional empty alternative, two start values: a{2,6} from t::0, a{0,2} from t::4
             let lark = "start: t::0 | t::4\nt::_: \"a\" t::incr(_) %if lt(_, 6)\n | \"\" %if ge(_, 2)\n".to_string();
@@ -345,12 +355,12 @@ pub fn gen_case(rng: &mut Rng, idx: usize, thorough: bool) -> Value {
     let nc = corpus().len();
     let depth_budget = if thorough { 3000 } else { 1200 };
     if idx < nc { return json!({"kind": "corpus", "i": idx, "budget": depth_budget}); }
-    if idx < nc + 7 { return json!({"kind": "param", "i": idx - nc, "budget": depth_budget}); }
+    if idx < nc + 8 { return json!({"kind": "param", "i": idx - nc, "budget": depth_budget}); }
     let lf = lexer_families();
-    if idx >= nc + 7 && idx < nc + 7 + lf.len() {
+    if idx >= nc + 8 && idx < nc + 8 + lf.len() {
         // byte-level engine (M5) on grammars whose difficulty is in the lexer
-        let (g, guides) = &lf[idx - nc - 7];
-        return json!({"kind": "rows-any", "grammar": {"lark": g}, "guides": guides.iter().map(|s| crate::vocab::hex(s.as_bytes())).collect::<Vec<_>>(), "lexer_family": idx - nc - 7, "seed": rng.next() % 1_000_000_000});
+        let (g, guides) = &lf[idx - nc - 8];
+        return json!({"kind": "rows-any", "grammar": {"lark": g}, "guides": guides.iter().map(|s| crate::vocab::hex(s.as_bytes())).collect::<Vec<_>>(), "lexer_family": idx - nc - 8, "seed": rng.next() % 1_000_000_000});
     }
     if idx % 5 == 4 {
         // Earley rows only: Lark grammars with regex lexemes and %ignore, JSON schemas (whitespace skip lexeme)
